@@ -57,7 +57,10 @@ pub fn make_module() -> KMap {
 
         match ctx.instance_and_args(is_list, expected_error)? {
             (KValue::List(l), [KValue::List(other)]) => {
-                l.data_mut().extend(other.data().iter().cloned());
+                // The other list could be the same list as the one that's being extended,
+                // so its data needs to be copied before the list gets mutably borrowed.
+                let other_data: ValueVec = other.data().iter().cloned().collect();
+                l.data_mut().extend(other_data);
                 Ok(KValue::List(l.clone()))
             }
             (KValue::List(l), [KValue::Tuple(other)]) => {
@@ -69,19 +72,18 @@ pub fn make_module() -> KMap {
                 let iterable = iterable.clone();
                 let iterator = ctx.vm.make_iterator(iterable)?;
 
-                {
-                    let mut list_data = l.data_mut();
-                    let (size_hint, _) = iterator.size_hint();
-                    list_data.reserve(size_hint);
-
-                    for value in iterator.map(collect_pair) {
-                        match value {
-                            KIteratorOutput::Value(value) => list_data.push(value.clone()),
-                            KIteratorOutput::Error(error) => return Err(error),
-                            _ => unreachable!(),
-                        }
+                // The iterator could be reading from the list that's being extended,
+                // so its output is collected before the list gets mutably borrowed.
+                let (size_hint, _) = iterator.size_hint();
+                let mut new_values = ValueVec::with_capacity(size_hint);
+                for value in iterator.map(collect_pair) {
+                    match value {
+                        KIteratorOutput::Value(value) => new_values.push(value),
+                        KIteratorOutput::Error(error) => return Err(error),
+                        _ => unreachable!(),
                     }
                 }
+                l.data_mut().extend(new_values);
 
                 Ok(KValue::List(l))
             }
